@@ -125,7 +125,7 @@ def run(ctx: core.Ctx) -> int:
     # compare what transform does, not how it is arranged: private helpers inlined, temporaries / module constants substituted,
     # guard clauses and redefinitions normalised (fv.normast)
     from .. import normast
-    nz = normast.Normaliser(normast.class_resolver(mod, cls, module_funcs="small"), consts=normast.module_constants(mod))
+    nz = normast.Normaliser(normast.class_resolver(mod, cls, module_funcs="small"), consts=normast.module_constants(mod), namedtuples=normast.module_namedtuples(mod))
     tr = nz.function(tr)
     for h in nz.inlined:
         ctx.functions.append(f"python.{CLS}.{h} (inlined into transform)")
